@@ -208,11 +208,13 @@ theorem union_row_completeH {p fs types offs cur} {i : Nat} {pc : B → R B} {uf
     {md : Metadata} {cost : Nat} {tid : Int} {nm : String} {cdt : DataType} {cn : Bool} {cmd : Metadata}
     (hg : GoodH (.union p fs types offs cur) (.union ufs mode) n md)
     (hufs : ufs.toList[i]? = some (tid, .mk nm cdt cn cmd))
+    (hcap : 1 ≤ curRoom cur)
     (hpc : ∀ c, GoodH c cdt cn cmd → roomL fs ≤ room c → ∃ c', pc c = .ok c' ∧ room c ≤ room c' + cost) :
     ∃ b', (do
       let (c, types', offs', cur') ← serializeVariant fs types offs cur i
       let c' ← pc c
-      pure (.union p (fs.set i c') types' offs' cur') : R B) = .ok b' ∧ roomL fs ≤ room b' + cost := by
+      pure (.union p (fs.set i c') types' offs' cur') : R B) = .ok b' ∧
+        min (curRoom cur) (roomL fs) ≤ room b' + max cost 1 := by
   have hw := hg.wf
   simp only [WFH] at hw
   have hsafe := hg.nd
@@ -237,8 +239,10 @@ theorem union_row_completeH {p fs types offs cur} {i : Nat} {pc : B → R B} {uf
   refine ⟨.union p (fs.set i c') (types ++ [(i : Int)]) (offs ++ [((dec c).length : Int)]) (cur.set i (((dec c).length : Int) + 1)), ?_, ?_⟩
   · refine (bind_ok _ _ _).2 ⟨(c, types ++ [(i : Int)], offs ++ [((dec c).length : Int)], cur.set i (((dec c).length : Int) + 1)), ?_,
       (bind_ok _ _ _).2 ⟨c', hpc', rfl⟩⟩
-    simp only [serializeVariant, hget, hcur, hi127, if_false]
+    simp only [serializeVariant, hget, hcur, hi127, curRoom_pos_get hcur hcap, if_false]
   · simp only [room]
-    exact roomL_set fs i c c' m cost hget hroom
+    have h1 := roomL_set fs i c c' m cost hget hroom
+    have h2 := curRoom_set cur i _ hcur
+    exact min_le_min_max h1 h2
 
 end SaModel.Build
